@@ -452,6 +452,10 @@ func SolveWith(name, body string, timeoutS int, names []string) string {
 		file := filepath.Join(scratch(), fmt.Sprintf("p%d.smt2", id))
 		os.WriteFile(file, []byte(sv.pre+body+"(check-sat)\n"), 0o644)
 		argv := sv.argv(file, timeoutS)
+		if name == "prune" && strings.HasPrefix(sv.name, "z3") {
+			// pruning only profits from quick answers: a soft limit in milliseconds on top of -T
+			argv = append(argv[:len(argv)-1], "-t:600", argv[len(argv)-1])
+		}
 		out, _ := exec.Command(argv[0], argv[1:]...).CombinedOutput()
 		os.Remove(file)
 		first := strings.TrimSpace(strings.SplitN(string(out), "\n", 2)[0])
